@@ -37,6 +37,18 @@ var (
 
 type XattrMeta struct{}
 
+// attrPath is the path of the file that carries the attributes of object. A
+// name with a trailing separator names a directory object and never the
+// file of the same name without it: the separator is kept, so that the file
+// system refuses the path when it is not a directory.
+func attrPath(bucket, object string) string {
+	path := filepath.Join(bucket, object)
+	if strings.HasSuffix(object, "/") {
+		path += "/"
+	}
+	return path
+}
+
 // RetrieveAttribute retrieves the value of a specific attribute for an object in a bucket.
 func (x XattrMeta) RetrieveAttribute(f *os.File, bucket, object, attribute string) ([]byte, error) {
 	if f != nil {
@@ -47,7 +59,7 @@ func (x XattrMeta) RetrieveAttribute(f *os.File, bucket, object, attribute strin
 		return b, err
 	}
 
-	b, err := xattr.Get(filepath.Join(bucket, object), xattrPrefix+attribute)
+	b, err := xattr.Get(attrPath(bucket, object), xattrPrefix+attribute)
 	if errors.Is(err, xattr.ENOATTR) {
 		return nil, ErrNoSuchKey
 	}
@@ -64,7 +76,7 @@ func (x XattrMeta) StoreAttribute(f *os.File, bucket, object, attribute string, 
 		return err
 	}
 
-	err := xattr.Set(filepath.Join(bucket, object), xattrPrefix+attribute, value)
+	err := xattr.Set(attrPath(bucket, object), xattrPrefix+attribute, value)
 	if errors.Is(err, syscall.EROFS) {
 		return s3err.GetAPIError(s3err.ErrMethodNotAllowed)
 	}
@@ -73,7 +85,7 @@ func (x XattrMeta) StoreAttribute(f *os.File, bucket, object, attribute string, 
 
 // DeleteAttribute removes the value of a specific attribute for an object in a bucket.
 func (x XattrMeta) DeleteAttribute(bucket, object, attribute string) error {
-	err := xattr.Remove(filepath.Join(bucket, object), xattrPrefix+attribute)
+	err := xattr.Remove(attrPath(bucket, object), xattrPrefix+attribute)
 	if errors.Is(err, xattr.ENOATTR) {
 		return ErrNoSuchKey
 	}
@@ -91,7 +103,7 @@ func (x XattrMeta) DeleteAttributes(bucket, object string) error {
 
 // ListAttributes lists all attributes for an object in a bucket.
 func (x XattrMeta) ListAttributes(bucket, object string) ([]string, error) {
-	attrs, err := xattr.List(filepath.Join(bucket, object))
+	attrs, err := xattr.List(attrPath(bucket, object))
 	if err != nil {
 		return nil, err
 	}
